@@ -13,7 +13,10 @@ import vlib
 PROPS = {
     "C03": ["FwdAuthentic", "FwdOnce", "FwdComplete", "ReplyAuthentic", "ReplyOnce", "SaltsFresh", "ReplyComplete",
             "CreateOnlyValid"],
-    "C04": ["SrcPrivate", "SrcStable", "OwnerOnly", "OnePerClient", "CreateOnce", "CreateOnlyValid"],
+    # NoEarlyRemoval belongs to C04 as well: "one stable socket while the association is alive" and "any datagram arriving at
+    # that source address from any target is delivered" both fail when something other than the promised timeout (a failed
+    # send, a datagram from a host that is not the DNS server, ...) tears the association down
+    "C04": ["SrcPrivate", "SrcStable", "OwnerOnly", "OnePerClient", "CreateOnce", "CreateOnlyValid", "NoEarlyRemoval"],
     "C14": ["NoEarlyRemoval", "ReclaimedInTime", "ShutdownReclaimed", "RemoveOnce", "DeadlineMonotone", "WriteExtends",
             "NoEarlyClose", "CloseOnce", "FastCloseRule"],
     "C16": ["MetricsLanguage", "CreateOnce", "CreateOnlyValid", "PktCSound", "PktTSound", "PktCPerDatagram", "PktTPerReply", "RemoveOnce",
@@ -371,7 +374,7 @@ def two_listeners(ctx, props, n=120):
         raise vlib.Inconclusive("udpnat twol failed rc=%s: %s" % (rc, err[-1500:]))
     s = json.load(open(sf))
     cfg = open(os.path.join(vlib.SPEC, "UdpNatTraceRealDef.cfg")).read()
-    cfg = cfg.replace("Allowed = {10, 12}", "Allowed = {1, 2, 4, 5, 10, 11, 12}").replace("MaxAssoc = 12", "MaxAssoc = %d" % (s["associations"] + 3))
+    cfg = cfg.replace("Allowed = {10, 12, 15}", "Allowed = {1, 2, 4, 5, 10, 11, 12, 15}").replace("MaxAssoc = 12", "MaxAssoc = %d" % (s["associations"] + 3))
     name = "UdpNatTraceTwol.cfg"
     open(os.path.join(d, name), "w").write(cfg)
     _validate_cfgtext(ctx, tf, cfg, props, "one handler, two listeners (concurrent Handle loops), %d fresh clients + junk" % n)
